@@ -390,10 +390,16 @@ def frame_sites(fnode):
     return out
 
 
+# methods of result classes that are NOT observers: constructors and the documented mutators used while a result is being built
+CONSTRUCTION_METHODS = {"__init__", "__post_init__", "__new__", "from_json", "from_dict", "populate_from_path", "__setattr__", "__setitem__", "__delitem__",
+                        "__delattr__"}
+
+
 def is_observer(q):
+    """Every method of a result class is an observer (accessors, iterators, properties, to_json / to_dict, __eq__, ...), except the
+    construction-time methods listed above."""
     name = q.split(".")[-1]
-    return ("." in q and "<locals>" not in q and
-            (name.startswith(("get_", "iterate_", "to_json", "is_")) or name in ("text_combined", "base_text", "__len__", "__iter__", "__str__", "__repr__")))
+    return "." in q and "<locals>" not in q and name not in CONSTRUCTION_METHODS
 
 
 def policy(repo, tier):
@@ -422,11 +428,31 @@ def policy(repo, tier):
                 o["replay_hint"] = {"kind": "order", "file": rel, "function": q, "line": node.lineno,
                                     "key": ast.unparse(next((kw.value for kw in node.keywords if kw.arg == "key"), ast.Constant(None)))}
                 obls.append(o)
+    # the serializer lists a set in iteration order (`isinstance(value, (list, tuple, set))`): no result field may hold one
+    dtm = mods[DT]
+    set_fields = []
+    n_fields = 0
+    for cq, cnode in dtm.classes.items():
+        for st_ in cnode.body:
+            if isinstance(st_, ast.AnnAssign) and isinstance(st_.target, ast.Name):
+                n_fields += 1
+                if set_annotation(st_.annotation) or (isinstance(st_.value, ast.Call) and any(
+                        k.arg == "default_factory" and dotted(k.value) in UNORDERED_CTORS for k in st_.value.keywords)):
+                    set_fields.append(f"{cq}.{st_.target.id} (line {st_.lineno})")
+    obls.append(ground_obligation("C06/data_types.py/order#no-set-typed-result-field", not set_fields and n_fields > 100,
+                                  "; ".join(set_fields) or f"{n_fields} annotated fields of result classes, none of a set type", DT))
     obls.append(ground_obligation("C06/package/order#all-functions-scanned", n_fun > 400, f"{n_fun} functions scanned for order-exposing set iteration", "package", backend="dataflow"))
     # ---- frames: observers of result objects
     dt = mods[DT]
     n_obs = 0
-    for q, fnode in functions_of(dt):
+    methods = []
+    for cq, cnode in dt.classes.items():
+        for st_ in cnode.body:
+            if isinstance(st_, (ast.FunctionDef, ast.AsyncFunctionDef)):
+                if any(isinstance(d, ast.Attribute) and d.attr in ("setter", "deleter") for d in st_.decorator_list):
+                    continue        # property setter: a mutator by declaration, not an observer
+                methods.append((f"{cq}.{st_.name}", st_))
+    for q, fnode in methods:
         if not is_observer(q):
             continue
         n_obs += 1
@@ -486,6 +512,14 @@ def policy(repo, tier):
                 o["replay_hint"] = {"kind": "nondet", "file": rel, "function": q, "line": n.lineno, "source": c or n.func.id}
                 obls.append(o)
                 k += 1
+    # functions that carry an order / stream / state / nondet obligation of their own
+    per_fn = {}
+    for o in obls:
+        h = o.get("replay_hint") or {}
+        if h.get("file") in mods and h.get("function") in mods[h["file"]].functions:
+            per_fn[(h["file"], h["function"])] = per_fn.get((h["file"], h["function"]), 0) + 1
+    for (rel, q), n in sorted(per_fn.items()):
+        fns.append(dict(mods[rel].fn_info(q), obligations=n))
     return {"obligations": obls, "functions": fns}
 
 
@@ -618,7 +652,14 @@ EXECUTOR = _executor()
 
 TRUSTED = ["third-party parsers are deterministic functions of their input bytes", "PY-HASHSEED: dict iteration = insertion order; set iteration order arbitrary per process"]
 ASSUMED_MODELS = []
-ASSUMPTIONS = ["fresh-process / hash-seed equality follows from the three obligation families only under the trusted-base assumptions; it is never executed by this check",
-               "aliasing is tracked by names rooted at `self` (constructor calls and copies are fresh)", "effect/qualifier obligations are decided by AST analysis (back end 'dataflow'), not SMT"]
+ASSUMPTIONS = ["fresh-process / hash-seed equality follows from the obligation families only under the trusted-base assumptions; as an executed fact it is only validated on the bounded corpus",
+               "aliasing is tracked by names rooted at `self` (constructor calls and copies are fresh)", "effect/qualifier obligations are decided by AST analysis (back end 'dataflow'), not SMT "
+               "(exception: serialization._bytesio_to_base64 is verified deductively with the C05 value model)",
+               "order: a name is unordered when every assignment to it is set-valued; set-returning functions / set-typed parameters and attributes are summarised per module; "
+               "sorted/min/max over a set is order-free only with a key whose equality implies element equality",
+               "state: process-persistent state = module-level names written inside functions, `global` rebinding, functools cache decorators; closures and "
+               "attributes of long-lived third-party objects are not tracked",
+               "nondet taint: data dependence only (no control dependence, no exceptions carrying a tainted message); library calls propagate taint from arguments/receiver to "
+               "result; names of temporary files are consumed by open()/os.path.exists()/extractall() without tainting what is read"]
 
 REPLAY_UNKNOWN = True    # undecided / out-of-subset items are searched natively (replay) before being reported UNDECIDED
